@@ -8,14 +8,18 @@
    The trace is newest first: in [t1 ++ ev :: t2] the events of [t2] happened before [ev].
    "As long as the subscribers keep receiving" = [ErrRecv] labels are the environment's; a fan-out in progress is
    [mon s = MFan ..], and [mon s = MIdle] is what every maximal run with receiving subscribers returns to.
-   Race freedom of the subscriber slice is not a statement about an interleaving model: it is the F14 lock, checked by
-   the free-running -race stress on every run (notes/C14.md).
+   Race freedom of the subscriber slice is not a statement about this interleaving model: it is the F14 lock, stated
+   as C14_subscribers_race_free over the lock skeleton regenerated from workqueue/queue.go on every run (lockset
+   theorem of Lib/Conc.v), and checked by the free-running -race stress (notes/C14.md).
    Property theorems only; proofs in Proofs/WQC14.v. *)
 From Coq Require Import List Arith ZArith Bool Lia.
 From TC.Lib Require Import GoHeap GoHeapProofs.
 From TC.Model Require Import WQ.
 From TC.Proofs Require Import WQHeap WQInv WQCons WQLive WQC14.
 From TC.Findings Require WQ.
+From TC.Lib Require Conc.
+From TC.Gen Require WQSkeleton_gen.
+From TC.Proofs Require WQLockset.
 Import ListNotations.
 
 Local Notation reachable W L ls s := (run fixed (init W L) ls = Some s).
@@ -122,6 +126,16 @@ Proof.
   exists s. split; [reflexivity|]. vm_compute in E. injection E as <-. vm_compute. repeat split.
 Qed.
 
+(* Race freedom of the subscriber slice, re-checked against the GO SOURCE on every run.  Gen/WQSkeleton_gen.v is
+   regenerated from workqueue/queue.go by translator/lockskel before every Coq build: the accesses to
+   Queue.errorSubscribers in every method of Queue and in the error-monitor goroutine that start() spawns (pseudo-method
+   "start.func2"), with the mode of errSubScriberMux held around them.  For EVERY schedule of any number of
+   instances of these methods (locks taken one by one, accesses one at a time, mutex semantics of Lib/Conc.v) no
+   two of them are ever about to access the slice conflictingly, and the translator understood all of queue.go.
+   (Before fix F14 the monitor ranged over the slice without the mutex: this theorem would not compile.) *)
+Theorem C14_subscribers_race_free : Conc.race_free WQSkeleton_gen.wq_err_skeleton.
+Proof. exact WQLockset.wq_err_race_free. Qed.
+
 Print Assumptions C14_accounting.
 Print Assumptions C14_recipients.
 Print Assumptions C14_exactly_once.
@@ -129,3 +143,4 @@ Print Assumptions C14_only_errors.
 Print Assumptions C14_others_progress.
 Print Assumptions C14_pending_error_waits_for_subscriber.
 Print Assumptions C14_subscribe_safe.
+Print Assumptions C14_subscribers_race_free.
